@@ -17,6 +17,11 @@ CONSTANTS Table <- McTableSeqQ
  SeqMsgs <- McSeqMsgsQ
  SeqConfirms <- McSeqConfirmsQ
  SeqMix <- McSeqMixQ
+ RxOn = FALSE
+ Answering <- NoAnswering
+ RxMax = 0
+ RxBystander = FALSE
+ RxStallOut = FALSE
  Dev <- McDev6
 VIEW SeqView
 INVARIANTS TypeOK UniqueRows NodeAlive NoDeadlock AllocBounded SeqCacheWaiting SeqConfirmsWaiting SeqChainLinear
